@@ -28,7 +28,7 @@ ASSUMPTIONS = ['the object interface (Fitter.fit + keep) is the reference for re
                'filter_output may raise on a record with zero fits, but then must raise the same class on every channel']
 PROBES = ['zero_fit_record_reached_consumer', 'ineligible_line_skipped', 'short_line_ended_input', 'lines_after_terminator_ignored',
           'preexisting_output_replaced', 'restart_after_crash', 'restart_after_enospc', 'prompt_n_abort', 'channel_list', 'channel_obj',
-          'channel_path', 'nan_result_record', 'crash_inside_metadata', 'no_final_newline', 'prelude_epoch']
+          'channel_path', 'nan_result_record', 'crash_inside_metadata', 'no_final_newline', 'prelude_epoch', 'channel_fresh', 'intruder_fit']
 
 
 def budgets(tier):
@@ -63,7 +63,8 @@ def generate(rng, tier, idx):
                        'delta': rng.randint(-2, 2), 'pick': rng.randrange(100)}
         sc['restart_reply'] = 'y' if rng.random() < 0.85 else 'n'
     steps = []
-    channel = rng.choice(['path', 'list', 'list', 'obj'])
+    channel = rng.choice(['path', 'list', 'list', 'obj', 'fresh', 'fresh'])
+    sc['intruder'] = rng.random() < 0.4     # another user fits against ANOTHER package in the same process before the consumers run
     for _ in range(rng.randint(0, 3)):
         steps.append({'op': rng.choice(pipe.CONSUMERS), 'sel': pipe.gen_selector(rng, w['n_models']),
                       'criterion': rng.choice(['chi', 'cpd']), 'threshold': float('%.3g' % (10 ** rng.uniform(-1, 5))),
@@ -284,8 +285,24 @@ def _execute(sc, sim, out):
     if channel == 'obj' and len(T) != 1:
         channel = 'list'
     if steps:
-        objs = pipe.read_fit_sed(outp)
-        arg = outp if channel == 'path' else (objs if channel == 'list' else objs[0])
+        if channel == 'fresh':
+            objs = twin                       # results exactly as Fitter.fit + keep returned them (never pickled)
+        else:
+            objs = pipe.read_fit_sed(outp)
+        if sc.get('intruder'):
+            # a second simulated user in the same process: same model names and filters, another package directory
+            from ..author import prelude_spec
+            Wi = World(prelude_spec(sc['world'], random.Random(sc['theta_seed'] + 1)))
+            di = Wi.write(sim.path('other_pkg'))
+            if pipe.call(pipe.convolve_model_dir, di, Wi.filters())[0] == 'ok':
+                names_i, ap_i = pipe.filter_args(Wi, sc)
+                ri = pipe.call(pipe.Fitter, names_i, ap_i, di, **pipe.fitter_kwargs(Wi, sc))
+                if ri[0] == 'ok':
+                    from ..author import make_source
+                    pipe.call(ri[1].fit, make_source(eligible[0]))
+                    out.probe('intruder_fit')
+                    sim.fired('intruder_fit')
+        arg = outp if channel == 'path' else (objs if channel in ('list', 'fresh') else objs[0])
         out.probe('channel_' + channel)
         fbytes = env.real_open(outp, 'rb').read()
         for i, st in enumerate(steps):
@@ -332,6 +349,10 @@ def repair(sc):
 def lowerings(sc, viol=None):
     if sc.get('prelude'):
         yield dict(sc, prelude=None)
+    if sc.get('intruder'):
+        yield dict(sc, intruder=False)
+    if sc.get('channel') not in ('path',):
+        yield dict(sc, channel='list')
     if sc['fault'] is not None:
         yield dict(sc, fault=None, restart_reply='y')
     if sc['preexisting'] is not None:
